@@ -352,6 +352,16 @@ func main() {
 }
 
 // scale returns the case budget for the tier (search = 10x).
+// Current records the case that is about to run, so that a crash of the whole process (a panic on a goroutine
+// of the library cannot be recovered by the harness) can be attributed to a concrete input by ./check.
+func (c *Ctx) Current(v any) {
+	if c.WorkDir == "" {
+		return
+	}
+	b, _ := json.Marshal(v)
+	os.WriteFile(filepath.Join(c.WorkDir, "current-case.json"), b, 0o644)
+}
+
 func (c *Ctx) scale(quick, thorough int) int {
 	n := quick
 	if c.Tier == "thorough" {
